@@ -187,6 +187,16 @@ def check_argparse(ns, ir, v):
         if members is not None:
             if a.choices is None or set(a.choices) != set(members):
                 v("argparse_choices", sorted(members), repr(a.choices), n_members=len(members), **pc)
+            else:
+                # type conversion and choices must agree: the command-line text of every member converts to that member and is accepted
+                for m in sorted(members):
+                    try:
+                        conv = (a.type or str)(str(m))
+                    except Exception as e:
+                        conv = "raises %s" % type(e).__name__
+                    if conv != m or type(conv) is not type(m) or conv not in a.choices:
+                        v("argparse_choice_member_rejected", "%r converts to %r and is among the choices" % (str(m), m), "converted %r, choices %r" % (conv, a.choices), **pc)
+                        break
         elif a.choices is not None:
             v("argparse_choices", "None", repr(a.choices), **pc)
         if base in CONV:
@@ -201,7 +211,7 @@ def check_argparse(ns, ir, v):
         if O.normdoc(a.help) != want_help:
             v("argparse_help", want_help, repr(a.help), **pc)
         if a.required:
-            required_args += ["--" + name, sorted(members)[0] if members else "1" if "int" in (base or "") else {"float": "1.5", "bool": "True", "dict": "{}", "list": "[]"}.get(base, "zz")]
+            required_args += ["--" + name, str(sorted(members)[0]) if members else "1" if "int" in (base or "") else {"float": "1.5", "bool": "True", "dict": "{}", "list": "[]"}.get(base, "zz")]
     # parsing no optional arguments yields the described defaults
     try:
         got = parser.parse_args(required_args)
